@@ -124,3 +124,20 @@ contract(K + '.insert', P, label='below-every-breakpoint', shapes=dict(n=[1, 2, 
 
 from contracts import helpers
 helpers.install(P, ('convert_unit', [('kcal', ['J', 'kJ', 'cal', 'kcal', 'eV']), ('mol', ['mol', 'molec', 'molecule'])]))
+
+# ---- long tables (declared bounded: the same clauses run natively on samples; never counted as proved) --------------------------
+for n in (6, 7, 11, 12, 25):
+    lemma('long-table[n=%d]' % n, P, native_only=True,
+          forall=dict(gaps=RealList(n - 1, 0.01, 0.08), slopes=RealList(n, -50., 50.), x=Real(0., 2.5), T=Real(50., 3000.),
+                      b=Real(0., 2.5), s=Real(-50., 50.)),
+          given=['all(g > 0 for g in gaps)', 'x >= 0', 'T > 0', 'b >= 0'],
+          prove=[('is-the-pwl-function', 'spec.cov.from_gaps(gaps, slopes).get_UoRT(x=x, T=T) * %s == spec.cov.pwl(spec.cov.breakpoints(gaps), slopes, x)' % RT),
+                 ('well-formed', 'spec.cov.wf(spec.cov.from_gaps(gaps, slopes))'),
+                 ('reloaded-table-is-the-same',
+                  'spec.cov.reloaded(spec.cov.from_gaps(gaps, slopes)).intervals == spec.cov.breakpoints(gaps) and '
+                  'spec.cov.reloaded(spec.cov.from_gaps(gaps, slopes)).slopes == list(slopes) and '
+                  'spec.cov.wf(spec.cov.reloaded(spec.cov.from_gaps(gaps, slopes)))'),
+                 ('reloaded-after-an-insert',
+                  'spec.cov.wf(spec.cov.reloaded(spec.cov.edit_copy_of(spec.cov.from_gaps(gaps, slopes), b, s))) and '
+                  'spec.cov.reloaded(spec.cov.edit_copy_of(spec.cov.from_gaps(gaps, slopes), b, s)).get_UoRT(x=x, T=T) == '
+                  'spec.cov.edit_copy_of(spec.cov.from_gaps(gaps, slopes), b, s).get_UoRT(x=x, T=T)')])
